@@ -401,7 +401,9 @@ def rotate(case):
     before = Snap(system)
     fails = []
     form = case.get('form', 0)
-    arg = [U, U.tolist(), U.astype(float)][form]
+    # form 3: whole numbers that come out of a float computation one ulp short in magnitude (1.9999999999999998), as
+    # returned e.g. by the primitive <-> conventional index conversions; accepted as integers, so they must act as such
+    arg = [U, U.tolist(), U.astype(float), np.nextafter(U.astype(float), 0.0)][form]
     judge_rotate(u, system, before, U, lambda: system.rotate(arg, return_transform=True), fails)
     return fails
 
@@ -528,7 +530,8 @@ def centering(case):
     setting, fam, bi, given = CENTER_CASES[case['k']]
     n = len(CENTER[setting])
     u = conventional(setting, fam, bi)
-    conv = make_system(u)
+    # (origin 1: the same conventional cell given with a box origin that is not a lattice point)
+    conv = make_system(u, origin=GENERIC_ORIGIN.copy() if case.get('origin') else None)
     c0 = Snap(conv)
     fails = []
     # --- conventional -> primitive
@@ -599,7 +602,10 @@ def centering(case):
         fails.append(Fail(key='p2c-not-lammps-compatible', msg='conventional cell not LAMMPS compatible'))
     # --- and back to primitive: c2p(p2c(prim)) is the crystal and cell of prim
     try:
-        prim2, T3 = conv2.dump('conventional_to_primitive', setting=setting, return_transform=True)
+        # (the conversions keep the crystal in place and put the box origin at 0: for a cell given with a generic origin
+        #  the rebuilt conventional cell has no atom at its corner, where the documented way is check_basis=False)
+        kw3 = dict(check_basis=False) if case.get('origin') else {}
+        prim2, T3 = conv2.dump('conventional_to_primitive', setting=setting, return_transform=True, **kw3)
     except (ValueError, AssertionError) as e:
         fails.append(Fail(key='c2p2-refused', msg='conventional_to_primitive refused the cell made by primitive_to_conventional: %s' % e))
         return fails
@@ -674,12 +680,13 @@ def gen():
             yield 'rotate-refusal', {'cell': ci, 'bad': bad}
     for k in range(len(CENTER_CASES)):
         yield 'centering', {'k': k}
+        yield 'centering', {'k': k, 'origin': 1}
         yield 'centering-refusal', {'k': k}
     for ci in rotate_cells():
         for m in range(3 ** 9):
             yield 'rotate', {'cell': ci, 'm': m}
     # the argument may be a list or a float array holding integers
-    for form in (1, 2):
+    for form in (1, 2, 3):
         for m in range(3 ** 9):
             if THOROUGH or m % 4 == form:      # quick: a fixed quarter of the matrices per form
                 yield 'rotate', {'cell': 1, 'm': m, 'form': form}
